@@ -44,9 +44,42 @@ func (u *unit) prepare(o *oblig) {
 	}
 	var sk []binder
 	o.goalSk = u.skolemize(o.goal, &sk, 0)
+	pureSk := append([]binder(nil), sk...)
+	sk = append(sk, o.cands...)
+	sk = append(sk, u.ufApps(o.goalSk, 6)...)
+	for i := len(o.pc) - 1; i >= 0 && i >= len(o.pc)-4; i-- {
+		if !strings.Contains(o.pc[i], "(forall ") {
+			sk = append(sk, u.ufApps(o.pc[i], 4)...)
+		}
+	}
+	// addresses read from raw memory in the goal: candidates for byte-level frame quantifiers
+	for _, a := range memIndexTerms(o.goalSk, 24) {
+		sk = append(sk, binder{a, "(_ BitVec 64)"})
+	}
+	sk = dedupBinders(sk, 40)
+	// relevance filter (E-matching discipline): an instance may not mention
+	// applications of spec functions that occur nowhere else in the query
+	known := map[string]bool{}
+	collectUfApps(o.goalSk, known)
 	for _, h := range append(append([]string{}, o.pc...), o.hints...) {
+		collectUfApps(h, known)
+	}
+	for _, h := range append(append([]string{}, o.pc...), o.hints...) {
+		seenInst := map[string]bool{}
+		if len(pureSk) > 0 {
+			// instances at the goal's own skolem constants are always kept
+			pi, _ := instances(h, pureSk, 0)
+			for _, g := range pi {
+				seenInst[g] = true
+				o.insts = append(o.insts, g)
+			}
+		}
 		inst, q := instances(h, sk, 0)
-		o.insts = append(o.insts, inst...)
+		for _, g := range inst {
+			if !seenInst[g] && relevantInstance(g, known) {
+				o.insts = append(o.insts, g)
+			}
+		}
 		if q || strings.Contains(h, "(forall ") || strings.Contains(h, "(exists ") {
 			o.hasQ = true
 		}
@@ -61,11 +94,19 @@ func (u *unit) queryMode(o *oblig, extra []string, withModel, ground bool) strin
 	var body strings.Builder
 	for _, p := range append(append([]string{}, o.pc...), o.hints...) {
 		if ground && (strings.Contains(p, "(forall ") || strings.Contains(p, "(exists ")) {
+			for _, c := range flattenAnd(p, 0) {
+				if !strings.Contains(c, "(forall ") && !strings.Contains(c, "(exists ") {
+					body.WriteString("(assert " + c + ")\n")
+				}
+			}
 			continue
 		}
 		body.WriteString("(assert " + p + ")\n")
 	}
 	for _, x := range o.insts {
+		if ground && (strings.Contains(x, "(forall ") || strings.Contains(x, "(exists ")) {
+			continue
+		}
 		body.WriteString("(assert " + x + ")\n")
 	}
 	for _, x := range extra {
@@ -133,7 +174,42 @@ type discharger struct {
 	solverT   float64
 }
 
-// discharge one obligation: z3-new first, then the other two in parallel
+// race runs the given solvers in parallel on file; the first unsat wins, a
+// sat is kept if nobody says unsat
+func (d *discharger) race(ctx context.Context, sps []solverSpec, file string, timeoutMs int) (res, name, out string, secs float64) {
+	type r struct {
+		res, name, out string
+		secs           float64
+	}
+	ch := make(chan r, len(sps))
+	cctx, cancel := context.WithCancel(ctx)
+	defer cancel()
+	for i, sp := range sps {
+		go func(i int, sp solverSpec) {
+			rs, txt, sc := runSolver(cctx, sp, file, timeoutMs, d.seed+i)
+			ch <- r{rs, sp.name, txt, sc}
+		}(i, sp)
+	}
+	best := r{res: "unknown"}
+	t0 := time.Now()
+	for i := 0; i < len(sps); i++ {
+		x := <-ch
+		if x.res == "unsat" {
+			return x.res, x.name, x.out, time.Since(t0).Seconds()
+		}
+		if x.res == "sat" && best.res != "sat" {
+			best = x
+		} else if best.res == "unknown" && best.name == "" {
+			best = x
+		} else if x.res == "timeout" && best.res != "sat" {
+			best.res = "timeout"
+		}
+	}
+	return best.res, best.name, best.out, time.Since(t0).Seconds()
+}
+
+// discharge one obligation: ground query first (quantified hypotheses
+// replaced by instances), then the full query; solvers raced in parallel
 func (d *discharger) one(u *unit, o *oblig, extra []string) {
 	d.mu.Lock()
 	d.n++
@@ -141,61 +217,31 @@ func (d *discharger) one(u *unit, o *oblig, extra []string) {
 	d.mu.Unlock()
 	file := filepath.Join(d.dir, fmt.Sprintf("q%05d.smt2", id))
 	ctx := context.Background()
+	done := func() {
+		d.mu.Lock()
+		d.solverT += o.secs
+		d.mu.Unlock()
+	}
 	if o.hasQ {
-		// ground first: quantified hypotheses replaced by their instances
 		gq := u.queryMode(o, extra, false, true)
 		gf := filepath.Join(d.dir, fmt.Sprintf("q%05d.ground.smt2", id))
 		os.WriteFile(gf, []byte(gq), 0644)
-		res, _, secs := runSolver(ctx, solvers[0], gf, d.timeoutMs, d.seed)
+		res, name, _, secs := d.race(ctx, solvers[:2], gf, d.timeoutMs)
 		o.secs += secs
 		if res == "unsat" {
 			os.Remove(gf)
-		}
-		if res == "unsat" {
-			o.res, o.solver, o.ground, o.qsize = "unsat", solvers[0].name, true, len(gq)
-			d.mu.Lock()
-			d.solverT += o.secs
-			d.mu.Unlock()
+			o.res, o.solver, o.ground, o.qsize = "unsat", name, true, len(gq)
+			done()
 			return
 		}
 	}
 	q := u.query(o, extra, false)
 	o.qsize = len(q)
 	os.WriteFile(file, []byte(q), 0644)
-	res, _, secs := runSolver(ctx, solvers[0], file, d.timeoutMs, d.seed)
+	res, name, _, secs := d.race(ctx, solvers, file, d.retryMs)
 	o.secs += secs
-	o.solver = solvers[0].name
-	if res != "unsat" && res != "sat" {
-		// race the other solvers (and z3-new again with more time)
-		type r struct {
-			res, name string
-			secs      float64
-		}
-		ch := make(chan r, 3)
-		cctx, cancel := context.WithCancel(ctx)
-		for i, sp := range []solverSpec{solvers[1], solvers[2], solvers[0]} {
-			go func(i int, sp solverSpec) {
-				rs, _, sc := runSolver(cctx, sp, file, d.retryMs, d.seed+i+1)
-				ch <- r{rs, sp.name, sc}
-			}(i, sp)
-		}
-		best := r{res: res, name: o.solver}
-		for i := 0; i < 3; i++ {
-			x := <-ch
-			o.secs += x.secs
-			if x.res == "unsat" || (x.res == "sat" && best.res != "unsat") {
-				best = x
-				if x.res == "unsat" {
-					break
-				}
-			}
-		}
-		cancel()
-		res, o.solver = best.res, best.name
-	}
-	o.res = res
+	o.res, o.solver = res, name
 	if res == "sat" {
-		// fetch a model
 		mf := filepath.Join(d.dir, fmt.Sprintf("q%05d.model.smt2", id))
 		os.WriteFile(mf, []byte(u.query(o, extra, true)), 0644)
 		for _, sp := range solvers {
@@ -208,9 +254,7 @@ func (d *discharger) one(u *unit, o *oblig, extra []string) {
 	if res == "unsat" {
 		os.Remove(file)
 	}
-	d.mu.Lock()
-	d.solverT += o.secs
-	d.mu.Unlock()
+	done()
 }
 
 type job struct {
